@@ -1,7 +1,7 @@
 (* Dispatcher of the model side of the correspondence check:
    one case = a domain name and a list of generic arguments; the result is the
    canonical transcript (one string per line). *)
-Require Import Bytes Outcome Render Layout Common TagType UserTypes RunCommon RunMbi RunMbiFull RunHeader RunBuild Sparse Big.
+Require Import Bytes Outcome Render Layout Common TagType UserTypes RunCommon RunMbi RunMbiFull RunHeader RunBuild Sparse Big TagEq.
 From Coq Require Import String.
 Open Scope string_scope.
 
@@ -45,6 +45,8 @@ Definition run_case (pn : N) (dom : string) (args : list arg) : list string :=
     match args with [AB h; AB l] => run_mbihuge h l | _ => bad end
   else if dom =? "findhuge" then
     match args with [AN L; AB pre] => run_findhuge L pre | _ => bad end
+  else if dom =? "tageq" then
+    match args with [AB b1; AB b2] => run_tageq p b1 b2 | _ => bad end
   else if dom =? "bigwalk" then
     match args with [AN n; AB tag] => run_bigwalk n tag | _ => bad end
   else if dom =? "hdrwalk" then
